@@ -224,6 +224,28 @@ func runC09(r *mon.Run) {
 		t.Count("coincidence-precision")
 	})
 	r.Require("coincidence-precision", 200)
+	// contexts whose MaxExponent is smaller than their Precision (a legal
+	// combination: many digits, small magnitudes): a result may have more
+	// digits than MaxExponent+1 as long as its adjusted exponent stays within range
+	r.Parallel("narrow-emax", r.N(20000, 1500000), func(t *mon.T) {
+		rr := t.Rng
+		c := gen.Context(rr)
+		if c.P < 4 {
+			c.P = int64(4 + rr.Intn(30))
+		}
+		c.Emax = int64(rr.Intn(int(c.P) - 1))
+		if c.Emin > 0 {
+			c.Emin = 0
+		}
+		x, e := quantizeOperand(rr, c)
+		if rr.Bool() {
+			quantizeCase(t, "all", c, x, e)
+		} else {
+			rtiCase(t, "value,flags", []string{"rtie", "rtiv"}[rr.Intn(2)], c, integralOperand(rr, c))
+		}
+		t.Count("narrow-emax")
+	})
+	r.Require("narrow-emax", 10000)
 	r.Parallel("integral", r.N(150000, 15000000), func(t *mon.T) {
 		c := gen.Context(t.Rng)
 		x := integralOperand(t.Rng, c)
